@@ -58,6 +58,16 @@ RulesFilesOf(arg, byTime) ==
   IF arg.k = "f" THEN <<<<arg.n>>>>
   ELSE SelectSeq(Walk(arg, <<>>, byTime), LAMBDA p : IsRules(Last(p)))
 
+\* ---- `cfn-guard test --dir`: which test files belong to which rules file ----------------
+\* (docs/UNIT_TESTING.md: the tests of <name>.guard are written in <name>_tests.yaml; test.rs
+\* looks for them in the `tests` directory next to the rules file)
+X_tests == <<95, 116, 101, 115, 116, 115>>
+TestsDir == <<116, 101, 115, 116, 115>>
+TestExts == {X_yaml, X_yml, X_json, X_jsn}
+RulePrefix(rname) == IF EndsWith(rname, X_guard) THEN SubSeq(rname, 1, Len(rname) - Len(X_guard))
+                     ELSE SubSeq(rname, 1, Len(rname) - Len(X_ruleset))
+IsTestNameOf(tname, rname) == IsRules(rname) /\ \E e \in TestExts : tname = RulePrefix(rname) \o X_tests \o e
+
 RECURSIVE Concat(_, _, _, _)
 Concat(args, i, F(_, _), byTime) == IF i > Len(args) THEN <<>> ELSE F(args[i], byTime) \o Concat(args, i + 1, F, byTime)
 \* the data files / rules files of a run, in the order they are read
